@@ -81,7 +81,7 @@ def main():
         })
     man = {
         "version": 1,
-        "setup_cmd": "cd lean && lake build drv CkptVerif && cd .. && (./check C10 --tier quick >/dev/null 2>&1 || true)",
+        "setup_cmd": "cd lean && lake build drv CkptVerif CkptGen && cd .. && (./check C10 --tier quick >/dev/null 2>&1 || true)",
         "hooks": {
             "guard": "CHECKPOINT_SCHEDULES_VERIF",
             "enable": "no source hooks are needed: everything is observed through the public iteration protocol",
